@@ -29,13 +29,25 @@ Check(e) ==
              ELSE IF \A k \in 1..Len(e.bodies) : e.bodies[k] # M.name THEN "wrong-body-for-type"
              ELSE "ok"
     [] e.op = "EncDisp" ->
-        LET c == EncRoute(e.fam, e.mt) IN
-        IF e.fam = "none" \/ c = {} THEN (IF e.panic THEN "panic" ELSE IF e.ok THEN "encode-without-route-succeeds" ELSE "ok")
-        ELSE LET M == Msgs[CHOOSE i \in c : TRUE] IN
-             IF e.m = M.name THEN (IF e.panic THEN "panic" ELSE IF ~e.ok THEN "routed-encode-fails"
-                                   ELSE IF SubSeq(e.bytes, 1, HdrLen(M)) # (IF M.fam = "GSM" THEN <<EpdGsm, 0, 0, M.mt>> ELSE <<EpdGmm, 0, M.mt>>) THEN "encoded-other-message" ELSE "ok")
-             ELSE IF e.panic THEN "note-nil-body-dereference"
-             ELSE IF e.ok THEN "encode-of-missing-body-succeeds" ELSE "ok"
+        \* three calls on the same message: PlainNasEncode, the family's encoder into a fresh buffer, the family's encoder
+        \* into a buffer that already holds octets.  The outcome is decided by family and message type alone.
+        LET c == EncRoute(e.fam, e.mt)
+            One(ok, panic, bytes, tag) ==
+              IF e.fam = "none" \/ c = {} THEN (IF panic THEN "panic" \o tag ELSE IF ok THEN "encode-without-route-succeeds" \o tag ELSE "ok")
+              ELSE LET M == Msgs[CHOOSE i \in c : TRUE] IN
+                   IF e.m = M.name THEN (IF panic THEN "panic" \o tag ELSE IF ~ok THEN "routed-encode-fails" \o tag
+                                         ELSE IF SubSeq(bytes, 1, HdrLen(M)) # (IF M.fam = "GSM" THEN <<EpdGsm, 0, 0, M.mt>> ELSE <<EpdGmm, 0, M.mt>>) THEN "encoded-other-message" \o tag ELSE "ok")
+                   ELSE IF panic THEN "note-nil-body-dereference"
+                   ELSE IF ok THEN "encode-of-missing-body-succeeds" \o tag ELSE "ok"
+            v1 == One(e.ok, e.panic, e.bytes, "")
+            v2 == One(e.Okf, e.Panicf, e.Bytesf, "/direct")
+            v3 == One(e.Okp, e.Panicp, e.Bytesp, "/direct-into-filled-buffer")
+        IN IF v1 \notin {"ok", "note-nil-body-dereference"} THEN v1
+           ELSE IF v2 \notin {"ok", "note-nil-body-dereference"} THEN v2
+           ELSE IF v3 \notin {"ok", "note-nil-body-dereference"} THEN v3
+           ELSE IF ~e.PrefixKept THEN "encoder-changed-octets-already-in-the-buffer"
+           ELSE IF e.Okf /\ e.Okp /\ e.Bytesf # e.Bytesp THEN "encoding-depends-on-buffer-contents"
+           ELSE IF "note-nil-body-dereference" \in {v1, v2, v3} THEN "note-nil-body-dereference" ELSE "ok"
     [] OTHER -> "ok"
 Init == l = 1 /\ TLCSet(2, 0)
 Next == /\ l <= Len(TraceLog)
